@@ -21,21 +21,38 @@ async def run_history(cap, rate, events):
     try:
         rl = mw.RateLimiter(mw.RateLimitConfig(capacity=cap, refill_rate=float(rate), retry_after=7))
         out = []
+        eff = []          # the events that actually happened (the given ones plus injected bursts, see below)
+        async def request(t, ip):
+            ok, resp = await rl.process_request("gemini://h/", ip)
+            eff.append(("r", t, ip))
+            if not ok and resp != "44 Rate limit exceeded. Retry after 7 seconds\r\n":
+                out.append(("bad-response", resp))
+            else:
+                out.append(bool(ok))
+        async def burst(t):
+            for ip in sorted(rl.buckets.keys()) or ["10.0.0.1"]:
+                for _ in range(cap + 1):
+                    await request(t, ip)
         for e in events:
             clock.t = float(e[1])
             if e[0] == "r":
-                ok, resp = await rl.process_request("gemini://h/", e[2])
-                if not ok and resp != "44 Rate limit exceeded. Retry after 7 seconds\r\n":
-                    out.append(("bad-response", resp))
-                else:
-                    out.append(bool(ok))
+                await request(e[1], e[2])
             else:
-                # one pass of _cleanup_loop: first sleep returns, second one stops the loop
-                n = {"k": 0}
+                # one pass of _cleanup_loop: the first sleep (the 300 s period) returns, the next period stops the loop.
+                # Any OTHER await inside the pass is a point where the event loop may run request handlers: a burst from
+                # every known address is injected there, and again right after the pass (schedule exploration; the
+                # unmodified pass has no such point, so nothing is injected)
+                n = {"k": 0, "inj": 0}
+                eff.append(("c", e[1]))
                 async def fake_sleep(d):
                     n["k"] += 1
-                    if n["k"] > 1:
-                        raise asyncio.CancelledError()
+                    if n["k"] == 1: return
+                    if d < 300 and n["inj"] < 3:
+                        n["inj"] += 1
+                        await burst(e[1])
+                        return
+                    if d < 300: return
+                    raise asyncio.CancelledError()
                 mw.asyncio.sleep = fake_sleep
                 try:
                     await rl._cleanup_loop()
@@ -43,6 +60,9 @@ async def run_history(cap, rate, events):
                     pass
                 finally:
                     mw.asyncio.sleep = real_sleep
+                if n["inj"]:
+                    await burst(e[1])
+        out = (out, eff)
         return out
     finally:
         mw.time = real_time
@@ -104,7 +124,7 @@ def run(tier, seed):
         return [await run_history(c, r, ev) for c, r, ev in cases]
     impl = asyncio.run(go())
     mcases, iobs, mon = [], [], []
-    for (cap, rate, ev), dec_ in zip(cases, impl):
+    for (cap, rate, ev0), (dec_, ev) in zip(cases, impl):
         sev = [["r", q(e[1]), e[2]] if e[0] == "r" else ["c", q(e[1])] for e in ev]
         mcases.append(("bucket", enc([q(cap), q(rate), sev])))
         iobs.append(enc([d if isinstance(d, bool) else str(d) for d in dec_]))
@@ -117,8 +137,8 @@ def run(tier, seed):
             res.nontriv((cap, rate, ev))
         res.count("len:%d" % min(len(ev), 10))
         res.count("refusals:%s" % ("0" if all(d is True for d in dec_) else ">0"))
-    res.sample({"cap": cases[100][0], "rate": str(cases[100][1]), "events": [[str(x) for x in e] for e in cases[100][2]], "decisions": impl[100]})
-    res.sample({"cap": cases[-1][0], "rate": str(cases[-1][1]), "events": [[str(x) for x in e] for e in cases[-1][2]], "decisions": impl[-1]})
+    res.sample({"cap": cases[100][0], "rate": str(cases[100][1]), "events": [[str(x) for x in e] for e in cases[100][2]], "decisions": impl[100][0]})
+    res.sample({"cap": cases[-1][0], "rate": str(cases[-1][1]), "events": [[str(x) for x in e] for e in cases[-1][2]], "decisions": impl[-1][0]})
     out = run_model_parallel(mcases)
     compare(res, "bucket", [c[1] for c in mcases], iobs, out, describe=lambda a: pretty(dec(a)))
     mo = run_model_parallel([m[1] for m in mon])
